@@ -471,3 +471,17 @@ Proof.
   destruct (cb_acquire pol now c) as [ok c1]. cbn [fst snd]. rewrite S.
   split; intro E; subst ok; reflexivity.
 Qed.
+
+(** several breakers created from one policy are independent: what instance [k] shows in a
+    joint run is what it shows when run alone on its own calls *)
+Lemma instances_independent pol k : forall idx calls f,
+  pick k idx (wrapm_run pol f idx calls) = wrap_run pol (f k) (pick k idx calls).
+Proof.
+  induction idx as [|i it IH]; intros calls f; [reflexivity|].
+  destruct calls as [|[[now h] cx] t]; cbn [wrapm_run pick].
+  - destruct (i =? k); reflexivity.
+  - destruct (wrap_call_ctx pol now cx h (f i)) as [r c'] eqn:E. cbn [pick].
+    destruct (Z.eqb_spec i k) as [-> | N].
+    + cbn [wrap_run]. rewrite E. f_equal. rewrite IH. unfold upd. now rewrite Z.eqb_refl.
+    + rewrite IH. unfold upd. destruct (Z.eqb_spec k i); [lia | reflexivity].
+Qed.
